@@ -76,7 +76,9 @@ def lopOfJ (j : J) : Option LStep := do
     | "getslice" => s.map LOp.getSlice
     | "len" => some .len
     | "contains" => v.map LOp.contains
-    | "index" => v.map LOp.index
+    | "index" => match j.getInt? "start" with
+      | none => v.map LOp.index
+      | some a => do pure (.indexIn (← v) a (← j.getInt? "stop"))
     | "count" => v.map LOp.count
     | "get_bad" => some .getBad
     | "set_bad" => some .setBad
@@ -106,6 +108,7 @@ def lopOfJ (j : J) : Option LStep := do
     | "imul" => (j.getInt? "n").map LOp.imul
     | "add" => vs.map LOp.add
     | "mul" => (j.getInt? "n").map LOp.mul
+    | "rmul" => (j.getInt? "n").map LOp.mul
     | "copy" => some .copy
     | "rebind" => do
       let ps ← j.getArr? "pairs"
@@ -116,8 +119,8 @@ def lopOfJ (j : J) : Option LStep := do
     | _ => none
   pure ⟨op, notify⟩
 
-def pairsOfJ (j : J) : Option (List (Key × Val)) := do
-  let ps ← j.getArr? "pairs"
+def pairsOfJ (j : J) (field : String := "pairs") : Option (List (Key × Val)) := do
+  let ps ← (j.getArr? field).orElse (fun _ => if field == "kw" then some [] else none)
   ps.mapM fun (p : J) => match p with
     | J.arr [k, v] => do pure ((← keyOfJ k), (← valOfJ v))
     | _ => none
@@ -140,11 +143,14 @@ def dopOfJ (j : J) : Option DStep := do
     | "clear" => some .clear
     | "setdefault" => do pure (.setdefault (← k) (← v))
     | "setdefault1" => k.map fun x => DOp.setdefault x .none
-    | "update" => (pairsOfJ j).map DOp.update
-    | "update_pairs" => (pairsOfJ j).map DOp.update
-    | "ior" => (pairsOfJ j).map DOp.update
+    | "update" => do pure (.update (← pairsOfJ j) (← pairsOfJ j "kw"))
+    | "update_pairs" => do pure (.update (← pairsOfJ j) (← pairsOfJ j "kw"))
+    | "update_kw" => do pure (.update [] (← pairsOfJ j "kw"))
+    | "ior" => do pure (.update (← pairsOfJ j) [])
+    | "ior_pairs" => do pure (.update (← pairsOfJ j) [])
+    | "get1" => k.map fun x => DOp.getD x .none
     | "copy" => some .copy
-    | "rebind" => (pairsOfJ j).map DOp.rebind
+    | "rebind" => do pure (.rebind (← pairsOfJ j) (← pairsOfJ j "kw"))
     | _ => none
   pure ⟨op, notify⟩
 
@@ -179,11 +185,17 @@ def handle (j : J) : J :=
             ("impl", .arr (runListJ implL (PgList.construct init) steps))]
     | none => bad "list op"
   | some "dict", some (.dict init), some ops =>
-    match ops.mapM dopOfJ with
-    | some steps =>
-      .obj [("spec", .arr (runDictJ specD (PyDict.assignAll [] init) steps)),
-            ("impl", .arr (runDictJ implD (PgDict.setAll [] init) steps))]
-    | none => bad "dict op"
+    -- `Dict(mapping, **kw)`: keyword arguments of the constructor in "init_kw"
+    match ops.mapM dopOfJ, (match j.get? "init_kw" with
+        | none => some []
+        | some (.arr kvs) => kvs.mapM fun (p : J) => match p with
+          | J.arr [k, v] => do pure ((← keyOfJ k), (← valOfJ v))
+          | _ => none
+        | _ => none) with
+    | some steps, some kw =>
+      .obj [("spec", .arr (runDictJ specD (PyDict.assignAll [] (init ++ kw)) steps)),
+            ("impl", .arr (runDictJ implD (PgDict.setAll [] (PgDict.mergePairs (init ++ kw))) steps))]
+    | _, _ => bad "dict op"
   | _, _, _ => bad "case"
 
 def main : IO Unit := driverLoop handle
